@@ -18,11 +18,26 @@ def main():
     muts = json.load(open(os.path.join(ROOT, "selftest", "mutants.json")))
     only = sys.argv[1] if len(sys.argv) > 1 else None
     bad = 0
+    if only is None:
+        # one subprocess per contract module: contract modules declare heap fields globally, and two modules that are never loaded
+        # by the same check may use one field name at two types (e.g. the ghost `_g_mine`)
+        import subprocess
+        start = int(os.environ.get("SELFTEST_FROM", "0"))
+        mods = []
+        for m in muts[start:]:
+            if m["module"] not in mods:
+                mods.append(m["module"])
+        for mod in mods:
+            bad += subprocess.call([sys.executable, os.path.abspath(__file__), mod], env=dict(os.environ, SELFTEST_MODULE="1")) != 0
+        return 1 if bad else 0
     start = int(os.environ.get("SELFTEST_FROM", "0"))   # resume an interrupted run at this index
     for idx, m in enumerate(muts):
         if idx < start:
             continue
-        if only and only not in m["fn"] and only != m["module"]:
+        if os.environ.get("SELFTEST_MODULE"):
+            if only != m["module"]:
+                continue
+        elif only and only not in m["fn"] and only != m["module"]:
             continue
         importlib.import_module("contracts." + m["module"])
         key = [k for k in FUNCS if (k.endswith("::" + m["fn"]) or k.endswith("." + m["fn"])) and FUNCS[k].proof][0]
